@@ -3,7 +3,7 @@
 import sys, os, json, shutil
 lid, needs = sys.argv[1], sys.argv[2]
 V = os.path.dirname(os.path.dirname(os.path.abspath(__file__)))
-src = f"/tmp/mut_{lid}"; dst = f"{V}/seeded/{lid.upper().replace('B','b')}"
+src = f"/tmp/mut_{lid}"; dst = f"{V}/seeded/{lid[:3].upper() + lid[3:]}"
 log = open(src + "/confirm.log").read()
 assert "DONE" in log and "PATCH DOES NOT APPLY" not in log, "not confirmed"
 wo, wi = log.split("== demo WITH change")[0], log.split("== demo WITH change")[1].split("== suite WITH change")[0]
